@@ -33,6 +33,8 @@ Val(v)      == [k |-> "val", v |-> v, err |-> "", c |-> NNone]
 Err(e)      == [k |-> "err", v |-> NNone, err |-> e, c |-> NNone]
 TypeErr(e, c) == [k |-> "err", v |-> NNone, err |-> e, c |-> c]
 AnyFloat    == [k |-> "anyfloat", v |-> NNone, err |-> "", c |-> NNone]
+(* a finite double at most one unit in the last place away from the correctly rounded x (a faithful result or its neighbour) *)
+Near(x)     == [k |-> "near", v |-> NF(x), err |-> "", c |-> NNone]
 Either(v, w) == [k |-> "either", v |-> v, err |-> "", c |-> w]
 Skip        == [k |-> "skip", v |-> NNone, err |-> "", c |-> NNone]   \* outside what this module decides (never emitted)
 
@@ -113,7 +115,7 @@ PowF(x, y) ==
            st == StripTwos(x.m, x.e)
            mo == st[1]
            eo == st[2]
-       IN IF BLen(mo) * ak > 600 THEN Skip
+       IN IF BLen(mo) * ak > 1200 THEN Skip
           ELSE
           LET s  == IF ak % 2 = 1 THEN x.s ELSE 0
               mp == Pow(mo, ak)
@@ -123,6 +125,11 @@ PowF(x, y) ==
               lb == IF k > 0 THEN BLen(mp) - 1 + ep ELSE 0 - ep - BLen(mp)    \* |x^y| >= 2^lb
           IN IF ex THEN FRes(r)
              ELSE IF r.k = "inf" /\ lb >= 1024 THEN Err("float_overflow")
+             (* an integer power is a finite product: its value is known exactly (mp * 2^ep), so the result must lie next to  *)
+             (* the correctly rounded double r; repeated multiplication with a rounding per step does not (10 ** 308 is six   *)
+             (* units off), and it gets the overflow decision wrong near the top of the range.  Results in the subnormal      *)
+             (* range and just below the overflow threshold stay undecided.                                                   *)
+             ELSE IF r.k = "fin" /\ r.e < 960 /\ r.e > -1060 /\ ~IsZero(r.m) THEN Near(r)
              ELSE IF r.k = "fin" /\ r.e < 960 THEN AnyFloat
              ELSE Skip
 
